@@ -81,6 +81,7 @@ def instances(tier: str) -> list[dict]:
         add("T5a", "adv")
         add("T5b", "adv")
     out.extend(big_instances(tier))
+    out.extend(built_instances(tier))
     for i in out:
         i["cap"] = CAPS[tier]
     # heavy items (root module involved: every variable is inspected) first, for better pool balance
@@ -110,6 +111,80 @@ def big_instances(tier: str) -> list[dict]:
         win, bg = random_window(rnd, nodes, rnd.choice((10, 11)), density=rnd.choice((0.03, 0.1, 0.2)), focus=S + O)
         out.append({"tree": f"R{len(nodes)}#{len(out)}", "naming": "mixed", "nodes": nodes, "window": [list(p) for p in win], "background": [list(p) for p in bg], "sk": sk, "S": sorted(S), "ok": ok, "O": O})
     return out
+
+
+# --- the laws on architectures BUILT by the real constructor (with and without level_limit) ---------------------------
+# The symbolic relation of the other parts lives in a stub DiGraph whose import edges join two different nodes.  What
+# the real constructor makes of an import LIST is outside that model: with a level limit, importer and importee may
+# flatten onto one module, imports may name unknown modules, one pair may be listed twice.  Here the presence of each
+# of nine candidate imports is a z3 atom, the real NetworkxGraph(all_modules, imports, level_limit) is built on every
+# path and every law is evaluated on it for one subject against every object (identical / ancestor / descendant /
+# unrelated); the leaf is OK or names the broken law.  (Construction reads every presence bit: an exhaustive walk,
+# marked degenerate; the query 'exists presence bits. some law is broken' is still the deciding step.)
+
+BUILT_MODULES = ["r", "r.a", "r.a.x", "r.a.y", "r.b", "r.b.z", "q"]
+BUILT_IMPORTS = [("r.a.x", "r.a.y"), ("r.a.y", "r.a.x"), ("r.a.x", "r.b.z"), ("r.b.z", "r.a.y"), ("r.b.z", "q"), ("q", "r.a.x"), ("r.a.x", "r.a"), ("r.b", "r.a.x"), ("r.a.x", "r.nowhere")]
+
+
+def built_arch(level_limit, present):
+    from pytestarch.eval_structure.evaluable_graph import EvaluableArchitectureGraph
+    from pytestarch.eval_structure.networkxgraph import NetworkxGraph
+    from pytestarch.eval_structure_generation.file_import.import_types import AbsoluteImport
+
+    return EvaluableArchitectureGraph(NetworkxGraph(list(BUILT_MODULES), [AbsoluteImport(x, y) for (x, y), on in zip(BUILT_IMPORTS, present) if on], level_limit))
+
+
+def built_outcome(inst, present):
+    ev = built_arch(inst["level_limit"], present)
+    objs = sorted(ev.modules)
+    s = inst["subject"]
+    if s not in objs:
+        return ("OK", 0)
+    n = 0
+    for o in objs:
+        for sk, ok in (("named", "named"), ("sub", "named"), ("named", "sub")):
+            item = {"sk": sk, "S": [s], "ok": ok, "O": [o]}
+            for law, comb, specs in laws(item):
+                outs = [evaluate(build_rule(sp), ev, with_message=False) for sp in specs]
+                n += 1
+                if not _law_holds(comb, [x[0] for x in outs]):
+                    return ("MISMATCH", law, tuple(sp.label() for sp in specs), tuple(x[0] for x in outs))
+    return ("OK", n)
+
+
+def _law_holds(comb, v) -> bool:
+    anyerr = "ERROR" in v
+    if comb == "eq":
+        return v[0] == v[1]
+    if comb == "neg":
+        return (v[0] == "ERROR") == (v[1] == "ERROR") and (anyerr or (v[0] == "PASS") != (v[1] == "PASS"))
+    if comb == "and":
+        return ((v[0] == "ERROR") == (v[1] == "ERROR" or v[2] == "ERROR")) and (anyerr or ((v[0] == "PASS") == (v[1] == "PASS" and v[2] == "PASS")))
+    return True
+
+
+def built_instances(tier: str) -> list[dict]:
+    out = []
+    for limit in (1, 2, None):
+        for s in (["r", "r.a", "r.b", "q"] if limit == 1 else BUILT_MODULES):
+            out.append({"part": "built", "level_limit": limit, "subject": s, "tree": f"built/k={limit}", "naming": "-", "sk": "named", "S": [s], "ok": "*", "O": ["*"]})
+    return out
+
+
+def work_built(inst: dict) -> dict:
+    from vf.engine.mm import check_no_mismatch
+    from vf.engine.symex import ENGINE
+
+    keys = [(("imp", i), 2) for i in range(len(BUILT_IMPORTS))]
+    label = f"{inst['tree']}/-: laws for subject {inst['subject']} on the graph built from a symbolic import list"
+
+    def fn():
+        return built_outcome(inst, [ENGINE.branch(("imp", i)) for i in range(len(BUILT_IMPORTS))])
+
+    def make_payload(assign):
+        return {"kind": "built", "level_limit": inst["level_limit"], "subject": inst["subject"], "present": [assign.get(("imp", i), 0) for i in range(len(BUILT_IMPORTS))]}
+
+    return check_no_mismatch(label, fn, 1 << 12, make_payload, replay_detail, all_keys=keys, degenerate=True, sample={"modules": BUILT_MODULES, "candidate_imports": BUILT_IMPORTS})
 
 
 def _spec(inst, verb, direction, exc, swap=False, anything=False):
@@ -156,6 +231,8 @@ def alias_laws(inst):
 
 
 def work(inst: dict) -> dict:
+    if inst.get("part") == "built":
+        return work_built(inst)
     nodes = inst["nodes"] if "nodes" in inst else concrete(inst["tree"], inst["naming"])
     label = f"{inst['tree']}/{inst['naming']}: {inst['sk']}{inst['S']} vs {inst['ok']}{inst['O']}"
     before = solver().stats()
@@ -248,6 +325,12 @@ def work(inst: dict) -> dict:
 
 
 def replay_detail(payload: dict):
+    if payload["kind"] == "built":
+        o = built_outcome({"level_limit": payload["level_limit"], "subject": payload["subject"]}, payload["present"])
+        imports = [list(p) for p, on in zip(BUILT_IMPORTS, payload["present"]) if on]
+        ok = o[0] == "OK"
+        text = f"architecture built from modules {BUILT_MODULES}, imports {imports}, level_limit={payload['level_limit']}: " + ("all laws hold" if ok else f"law {o[1]} broken: " + "; ".join(f"[{sp}] -> {v}" for sp, v in zip(o[2], o[3])))
+        return ok, text, {"outcome": [str(x)[:400] for x in o]}
     nodes = payload["nodes"]
     edges = [tuple(e) for e in payload["edges"]]
     specs = [RuleSpec.from_json(s) for s in payload["specs"]]
@@ -288,6 +371,7 @@ def run(tier: str, only: str | None = None) -> int:
         items = [i for i in items if only in f"{i['tree']}/{i['naming']}: {i['sk']}{i['S']} vs {i['ok']}{i['O']}"]
     rep.bounds = {
         "trees": sorted({i["tree"].split("#")[0] for i in items}),
+        "built_architectures": f"modules {BUILT_MODULES}, nine candidate imports (incl. imports inside one flattened module, of an ancestor, of an unknown module), level_limit 1 / 2 / none, real NetworkxGraph construction per path",
         "seeded_larger_universes": f"{sum(1 for i in items if 'window' in i)} random forests of 8-12 modules, concrete background relation, 10-11 symbolic pairs each (VERIF_SEED)",
         "namings": sorted({i["naming"] for i in items}),
         "path_cap_per_summary": CAPS[tier],
